@@ -26,12 +26,14 @@ import (
 	"github.com/streamingfast/substreams/reqctx"
 	"github.com/streamingfast/substreams/service"
 	"github.com/streamingfast/substreams/service/config"
+	"github.com/streamingfast/substreams/wasm/wazero"
 	"go.uber.org/zap"
 )
 
 func init() {
 	os.Setenv("SUBSTREAMS_WASM_RUNTIME", SimVMName)
 	dmetering.RegisterNull()
+	wazero.SetTempDir("/verif/.cache") // compilation cache of the real-wazero configuration
 }
 
 var curEnv *Env // the env of the run in progress (hooks are process-global)
